@@ -1,10 +1,10 @@
-\* emulation store, quick
+\* the shape of seeded change C07h (recycled files, register-major wipe of a lane-major file): FreshCells must fail
 SPECIFICATION PSpec
 CONSTANTS
   Mode = "emu"
   WFs = {1, 2}
   Lanes = {0, 1}
-  Counts = {0, 1, 2}
+  Counts = {0, 1}
   Zero = 0
   ZeroOf <- MCZeroOf
   OrVal <- MCOr
@@ -16,9 +16,8 @@ CONSTANTS
   ESRegs = 4
   EVRegs = 4
   AllocS = {2}
-  AllocV = {1, 2}
-  MaxOps = 3
-  Deviations = {}
-INVARIANTS Refines RYW Alias FreshCells
-PROPERTIES Frame
+  AllocV = {2}
+  MaxOps = 4
+  Deviations = {"EmuPoolUnderwipe"}
+INVARIANTS FreshCells
 CHECK_DEADLOCK FALSE
